@@ -1,5 +1,5 @@
 (* C18 — non-vacuity: concrete states meeting the hypotheses of the theorems. *)
-From GL Require Import Common.Bytes Table.TImpl Table.TBasics Table.TSpec Table.TInv Table.TRefine Table.TGet Table.TLib Table.TLibFacts.
+From GL Require Import Common.Bytes Table.TImpl Table.TBasics Table.TSpec Table.TInv Table.TRefine Table.TGet Table.TLib Table.TLibFacts Table.TLibNest Table.TLibNestFacts.
 From Coq Require Import Lia Permutation.
 
 Definition MAI := 67108864.
@@ -84,3 +84,24 @@ Proof. intros k []. Qed.
 (* hypothesis of remove_outside *)
 Example tl_outside : optz (Some 4) 3 < 1 \/ 3 < optz (Some 4) 3.
 Proof. right. reflexivity. Qed.
+
+(* sort_reentrant / sort_permutation_stateful: the outer comparator (a < b) sorts the list
+   [5;4] held in the world at each of its calls (inner routine: one Less, one Swap) *)
+Definition ex_ievs (k : Z) : list sev := if k =? 0 then [ELess 1 0; ESwap 0 1] else [ELess 1 0].
+Example ex_ievs_in_range : forall k (w0 : list value),
+  len w0 = len [VNum 5; VNum 4] -> forallb (ev_in_range (len w0)) (ex_ievs k) = true.
+Proof. intros k w0 E. rewrite E. unfold ex_ievs. destruct (k =? 0); reflexivity. Qed.
+Example ex_run_nested :
+  sort_run_w (nesting_cmp ex_ievs (cmp_fun CLt) (cmp_fun CLt)) [VNum 5; VNum 4] ex_arr ex_evs []
+  = ([VNum 4; VNum 5], ([VNum 1; VNum 2; VNum 3], [(VNum 1, VNum 3); (VNum 2, VNum 3)], false)).
+Proof. reflexivity. Qed.
+(* an inner comparator that fails makes the outer comparator fail: the outer run stops *)
+Example ex_run_nested_fail :
+  sort_run_w (nesting_cmp ex_ievs (cmp_fun (CFailAt 1)) (cmp_fun CLt)) [VNum 5; VNum 4] ex_arr ex_evs []
+  = ([VNum 5; VNum 4], (ex_arr, [(VNum 1, VNum 3)], true)).
+Proof. reflexivity. Qed.
+(* a comparator with a counter as its world *)
+Example ex_run_counter :
+  sort_run_w (fun (w : Z) k x y => (w + 1, cmp_fun CLt k x y)) 0 ex_arr ex_evs []
+  = (2, ([VNum 1; VNum 2; VNum 3], [(VNum 1, VNum 3); (VNum 2, VNum 3)], false)).
+Proof. reflexivity. Qed.
